@@ -1,0 +1,60 @@
+//go:build verif
+
+package uasc
+
+// Observation points for the verification harness. Read-only except
+// VerifSetSequenceNumber.
+
+// VerifHandlerCount returns the number of registered response handlers.
+func (s *SecureChannel) VerifHandlerCount() int {
+	s.handlersMu.Lock()
+	defer s.handlersMu.Unlock()
+	return len(s.handlers)
+}
+
+// VerifBufferedChunks returns the number of request ids with incomplete
+// messages and the total number of chunks and bytes buffered for them.
+func (s *SecureChannel) VerifBufferedChunks() (ids, chunks, bytes int) {
+	s.chunksMu.Lock()
+	defer s.chunksMu.Unlock()
+	for _, cs := range s.chunks {
+		ids++
+		chunks += len(cs)
+		for _, c := range cs {
+			bytes += len(c.Data)
+		}
+	}
+	return
+}
+
+// VerifSetSequenceNumber sets the sequence number of the active instance
+// (to start a run near the wrap-around).
+func (s *SecureChannel) VerifSetSequenceNumber(n uint32) bool {
+	inst, err := s.getActiveChannelInstance()
+	if err != nil {
+		return false
+	}
+	inst.Lock()
+	inst.sequenceNumber = n
+	inst.Unlock()
+	return true
+}
+
+// VerifToken describes one security token instance known to the channel.
+type VerifToken struct {
+	ChannelID, TokenID uint32
+	Active             bool
+}
+
+// VerifTokens lists the token instances the channel would accept chunks for.
+func (s *SecureChannel) VerifTokens() []VerifToken {
+	s.instancesMu.Lock()
+	defer s.instancesMu.Unlock()
+	var out []VerifToken
+	for _, list := range s.instances {
+		for _, inst := range list {
+			out = append(out, VerifToken{inst.secureChannelID, inst.securityTokenID, inst == s.activeInstance})
+		}
+	}
+	return out
+}
